@@ -31,6 +31,12 @@ PairRows  == {r \in [kind : {"pair"}, a : PairDescs, b : PairDescs, tr : Transpo
 PairExpected(r) == [aran |-> 1, bran |-> 1, ares |-> "rt", bres |-> "rt"]
 P_C01_Pair(r, o) == o.aran = 1 /\ o.bran = 1 /\ o.ares = "rt" /\ o.bres = "rt"
 
+\* k calls of ONE method issued at the same instant with pairwise different arguments (parameters that take a while to decode):
+\* every call runs its handler once, with its own arguments, and gets the result computed from them
+BurstRows == [kind : {"burst"}, k : {2, 8}, tr : Transports, fmt : {"ns.orig"}]
+BurstExpected(r) == [ran |-> r.k, own |-> r.k]
+P_C01_Burst(r, o) == o.ran = r.k /\ o.own = r.k
+
 RT(x) == <<"rt", x>>
 Arg(i) == <<"a", i>>
 Zero == <<"zero">>
